@@ -302,8 +302,20 @@ func (fr *Frame) execBlock(b *ssa.BasicBlock, st *State) {
 		if _, ok := ins.(*ssa.Phi); ok {
 			continue
 		}
+		if len(fr.pendingAfter) > 0 {
+			switch ins.(type) {
+			case *ssa.Extract, *ssa.DebugRef:
+			default:
+				// ghost definitions attached to the preceding call, once its results have been named
+				for _, c := range fr.pendingAfter {
+					fr.afterCall(b, idx, c, st, reach)
+				}
+				fr.pendingAfter = nil
+			}
+		}
 		fr.execInstr(b, idx, ins, st, reach)
 	}
+	fr.pendingAfter = nil
 }
 
 func (fr *Frame) panicObl(b *ssa.BasicBlock, idx int, kind string, safe string, reach string, ins ssa.Instruction) {
